@@ -98,12 +98,19 @@ def run(ctx):
     t3 = polarity.Table(f, name_sign={"toi": r"\.toi$"}, name_bool={"in_files": r"contains_key",
                                       "expired": r"FileDesc::is_expired"},
                         call_filter=r"VecDeque.*::push_back$|HashMap.*::remove$|VecDeque.*::push_front$|HashMap.*::insert$")
-    need = ("in_files", "expired", "toi")
-    missing = [l for l in need if l not in t3.labels_found()]
+    if "toi" not in t3.labels_found():
+        raise model.AnchorMissing("transfer_done: TOI test not found (seen %s)" % list(t3.seen_sign))
+    missing = [l for l in ("in_files", "expired") if l not in t3.labels_found()]
+    for l in missing:
+        r3.violation("transfer_done tests %s" % l, "Fdt::transfer_done no longer tests %s before requeueing / forgetting the object "
+                     "(conditions found: %s): %s" % ({"in_files": "membership in `files` (contains_key)", "expired": "FileDesc::is_expired()"}[l],
+                                                     list(t3.seen_bool)[:6],
+                                                     {"in_files": "an object removed during its transfer is pushed back into files_transfer_queue",
+                                                      "expired": "requeueing does not depend on the transfer count"}[l]), loc(f.sp))
     if missing:
-        raise model.AnchorMissing("transfer_done: conditions %s not found (seen %s)" % (missing, list(t3.seen_bool)))
+        t3 = None
     n = 0
-    for sc in t3.scenarios():
+    for sc in (t3.scenarios() if t3 is not None else []):
         if sc["toi"] == 0:
             continue  # TOI 0 = the FDT's own transfer
         res = t3.results(sc)
@@ -120,11 +127,54 @@ def run(ctx):
             r3.ok(key, "queue/map operations: %s" % sorted(callsets), loc(f.sp))
         else:
             r3.violation(key, "queue/map operations on this branch are %s, expected %s" % (sorted(callsets), sorted(exp)), loc(f.sp))
-    r3.floor(4, "scenarios of transfer_done")
+    if t3 is not None:
+        r3.floor(4, "scenarios of transfer_done")
+
+    # ---- R5 forced stop of removed objects ----------------------------------------------------------
+    r5 = ctx.rule("C12.R5", "FileDesc::can_transfer_be_stopped == allow_immediate_stop_before_first_transfer == Some(true) || "
+                            "total_nb_transfer > 0, where total_nb_transfer is the never-reset counter (TransferInfo.total_nb_transfer), "
+                            "not the per-cycle transfer_count (the use of the result in SenderSession::run and the `stopped` latch are C08.R2)",
+                  "E3 decision table")
+    f = prog.fn(FD + "::can_transfer_be_stopped")
+    ctx.analysed(f.path)
+    t5 = polarity.Table(f, name_sign={"total": r"total_nb_transfer", "allow": r"Some\{0: True\}.*allow_immediate_stop_before_first_transfer|allow_immediate_stop_before_first_transfer.*Some\{0: True\}"})
+    o5 = 1
+    for k, lab in t5.seen_sign.items():
+        if lab == "total":
+            for n_, v_ in k[0]:
+                if "total_nb_transfer" in n_:
+                    o5 = 1 if v_ > 0 else -1
+    polarity.check_table(r5, t5, lambda sc: sc["allow"] == 0 or sc["total"] * o5 > 0, "can_transfer_be_stopped", loc(f.sp),
+                         require_labels=("total", "allow"))
+    # the accessor returns the never-reset field
+    g = prog.fn(FD + "::total_nb_transfer")
+    ctx.analysed(g.path)
+    gs = Slicer(g.body)
+    rets = [show(gs.expand(e), 120) for e in _ret_values(g)]
+    key = "FileDesc::total_nb_transfer returns TransferInfo.total_nb_transfer"
+    if rets and all(re.search(r"\.total_nb_transfer$", r) for r in rets):
+        r5.ok(key, "; ".join(rets), loc(g.sp))
+    else:
+        r5.violation(key, "accessor returns %s" % rets, loc(g.sp))
+    r5.floor(5, "scenarios + accessor")
 
     # ---- R4 loops on the sender read path ------------------------------------------------------
     r4 = ctx.rule("C12.R4", "every loop reachable from Sender::read has a recognised progress argument", "loop inventory")
     loops.check_loops(ctx, r4, [r"^sender::sender::Sender::read$"], table=SENDER_LOOP_TABLE)
+
+
+def _ret_values(func):
+    out = []
+    x = X(func.body)
+    for blk in func.body.blocks:
+        if blk.cleanup:
+            continue
+        for st in blk.stmts:
+            if st.k == "assign" and st.lhs == (0, ()):
+                out.append(x.rvalue(st.rv, x.depth))
+        if blk.term.k == "call" and blk.term.dest == (0, ()):
+            out.append(x.call_expr(blk.i, blk.term, x.depth))
+    return out
 
 
 def _orient(t, label, positive_leaf):
